@@ -2,6 +2,7 @@ package main
 
 import (
 	"context"
+	"math"
 	"runtime"
 	"strings"
 	"sync"
@@ -37,6 +38,11 @@ func drain(ch chan int) []int {
 func driveChans(plan []M, out *Out, _ []string) {
 	for _, c := range plan {
 		op, cp, fill, closed, limit := str(c, "op"), num(c, "cap"), num(c, "fill"), boolean(c, "closed"), num(c, "limit")
+		reallimit := limit
+		if h, ok := c["huge"]; ok { // limits at the top of the int range; written as 2^30 in the trace (TLC integers are 32-bit)
+			reallimit = []int{math.MaxInt, math.MaxInt - 1, math.MaxInt / 2}[int(h.(float64))%3]
+			limit = 1 << 30
+		}
 		dl, peer, pending := str(c, "dl"), str(c, "peer"), num(c, "pending")
 		e := M{"op": op, "cap": cp, "fill": fill, "closed": closed, "limit": limit, "dl": dl, "peer": peer, "pending": pending,
 			"got": []int{}, "rest": []int{}, "n": 0, "bufafter": []int{}, "blocked": false, "ok": false, "v": 0, "early": false,
@@ -44,6 +50,31 @@ func driveChans(plan []M, out *Out, _ []string) {
 		ch := make(chan int, cp)
 		for i := 1; i <= fill; i++ {
 			ch <- i
+		}
+		if op == "RecvCloseRace" {
+			// an empty open channel, one RecvTimeout(3ms) caller, and a goroutine that closes the channel right around that
+			// deadline (offset swept over the rounds): whatever wins, the answer is (zero, false)
+			off := time.Duration(num(c, "offus")) * time.Microsecond
+			res := make(chan [2]int, 1)
+			go func() {
+				v, ok := chans.RecvTimeout(ch, 3*time.Millisecond)
+				b := 0
+				if ok {
+					b = 1
+				}
+				res <- [2]int{v, b}
+			}()
+			time.Sleep(3*time.Millisecond + off)
+			close(ch)
+			select {
+			case r := <-res:
+				e["v"], e["ok"] = r[0], r[1] == 1
+			case <-time.After(2 * time.Second):
+				e["blocked"] = true
+			}
+			e["panic"] = ""
+			out.Emit(e)
+			continue
 		}
 		if op == "RecvRace" || op == "SendRace" {
 			// n callers released together on one channel: RecvRace: `fill` values queued (channel closed or open), every caller
@@ -121,7 +152,7 @@ func driveChans(plan []M, out *Out, _ []string) {
 				defer close(done)
 				e["panic"] = protect(func() {
 					if op == "RecvQueued" {
-						e["got"] = nz(chans.RecvQueued(ch, limit))
+						e["got"] = nz(chans.RecvQueued(ch, reallimit))
 					} else {
 						buf := make([]int, limit)
 						for i := range buf {
